@@ -109,7 +109,9 @@ func ParseTrace(errText string, p *Project) (msg string, trace []TraceEntry) {
 	return strings.Join(lines[:n], "\n"), trace
 }
 
-var includeLineRe = regexp.MustCompile(`^[ \t]*INCLUDE[ \t]+("((?:[^"\\]|\\.)*)"|[^ \t\r\n#]+)`)
+// (a "### ... ###" block comment, possibly over several lines, may sit between the keyword and the file name: the INCLUDE
+// is on the line of its keyword)
+var includeLineRe = regexp.MustCompile(`^[ \t]*INCLUDE[ \t]+(?:###[\s\S]*?###[ \t]*)?("((?:[^"\\]|\\.)*)"|[^ \t\r\n#]+)`)
 
 // IncludesOnLine returns the project-relative target of an INCLUDE directive written on the given 1-based line of
 // file (or "" if that line holds none).
@@ -127,7 +129,7 @@ func IncludesOnLine(p *Project, file string, line int) string {
 	if line < 1 || line > len(ll) {
 		return ""
 	}
-	m := includeLineRe.FindStringSubmatch(strings.TrimRight(ll[line-1], "\r"))
+	m := includeLineRe.FindStringSubmatch(strings.Join(ll[line-1:], sep))
 	if m == nil {
 		return ""
 	}
